@@ -34,6 +34,35 @@ impl Tier {
     }
 }
 
+/// multiplier of proptest case counts in the thorough tier (set per property by run_property)
+pub static THOROUGH_SCALE: std::sync::atomic::AtomicU32 = std::sync::atomic::AtomicU32::new(1);
+
+/// measured: thorough wall time with scale 1 on 16 cores -> scale chosen for roughly 3-6 minutes
+pub fn thorough_scale_of(id: &str) -> u32 {
+    // scale-1 wall times measured on this machine (16 workers): C01 21 s, C02 33, C03 21, C04 15, C05 6, C06 247 (with the
+    // libFuzzer build), C07 115, C08 331, C09 704, C10 13, C11 71, C12 7, C13 7, C14 42, C15 23, C16 9, C17 40, C18 267,
+    // C19 13, C20 24. Lanes that enumerate (short-exhaustive, skeletons, cells) or fuzz are not scaled.
+    match id {
+        "C01" => 15,
+        "C02" => 10,
+        "C03" => 15,
+        "C04" => 16,
+        "C05" => 30,
+        "C06" => 2,
+        "C07" => 3,
+        "C10" => 25,
+        "C11" => 6,
+        "C12" => 40,
+        "C13" => 40,
+        "C14" => 6,
+        "C15" => 12,
+        "C16" => 30,
+        "C19" => 20,
+        "C20" => 12,
+        _ => 1,
+    }
+}
+
 #[derive(Clone, Debug)]
 pub struct Ctx {
     pub tier: Tier,
@@ -283,7 +312,13 @@ where
     fn run(&self, ctx: &Ctx, known: &[KnownFinding]) -> LaneReport {
         // quick-tier counts in the property tables are per worker and were calibrated for ~1 s;
         // the quick tier runs them x QUICK_SCALE so that every quick check does several seconds of work
-        let scale: u32 = if ctx.tier == Tier::Quick { std::env::var("VERIF_QUICK_SCALE").ok().and_then(|s| s.parse().ok()).unwrap_or(4) } else { 1 };
+        // the thorough tier multiplies its (per worker) counts by the property's entry in THOROUGH_SCALE, which
+        // was set from measured run times so that every thorough check explores for several minutes on 16 cores
+        let scale: u32 = if ctx.tier == Tier::Quick {
+            std::env::var("VERIF_QUICK_SCALE").ok().and_then(|s| s.parse().ok()).unwrap_or(4)
+        } else {
+            std::env::var("VERIF_THOROUGH_SCALE").ok().and_then(|s| s.parse().ok()).unwrap_or_else(|| THOROUGH_SCALE.load(std::sync::atomic::Ordering::Relaxed).max(1))
+        };
         let cases = (self.cases)(ctx.tier).saturating_mul(scale);
         let rep = RefCell::new(LaneReport::new(self.name));
         rep.borrow_mut().exhaustive = false;
@@ -490,6 +525,7 @@ pub fn run_property(p: &Property, tier: Tier, seed: u64, only_lane: Option<&str>
 
     // 2. generated lanes
     let workers = tier.pick(p.workers.0, p.workers.1).max(1);
+    THOROUGH_SCALE.store(thorough_scale_of(p.id), std::sync::atomic::Ordering::Relaxed);
     for lane in p.lanes.iter() {
         if let Some(o) = only_lane {
             if o != lane.name() {
